@@ -314,7 +314,8 @@ func (client *client) writeLoop() {
 			switch p := packet.(type) {
 			case *packets.Publish:
 				if client.version == packets.Version5 {
-					if client.opts.ClientTopicAliasMax > 0 {
+					// The Topic Alias property adds 3 bytes: only use an alias if the packet still fits the client's Maximum Packet Size.
+					if client.opts.ClientTopicAliasMax > 0 && client.topicAliasFits(p) {
 						// use alias if exist
 						if alias, ok := client.topicAliasManager.Check(p); ok {
 							p.TopicName = []byte{}
@@ -352,6 +353,18 @@ func (client *client) writeLoop() {
 			}
 		}
 	}
+}
+
+// topicAliasFits reports whether p still respects the client's Maximum Packet Size when a Topic Alias property (3 bytes) is added.
+func (client *client) topicAliasFits(p *packets.Publish) bool {
+	if client.opts.ClientMaxPacketSize == 0 || client.opts.ClientMaxPacketSize == math.MaxUint32 {
+		return true
+	}
+	var b bytes.Buffer
+	if err := p.Pack(&b); err != nil {
+		return false
+	}
+	return uint32(b.Len())+3 <= client.opts.ClientMaxPacketSize
 }
 
 func (client *client) writePacket(packet packets.Packet) error {
